@@ -367,6 +367,7 @@ type AttemptResult struct {
 	Dump       *sim.DumpReq // the dump request of this attempt (nil if none arrived)
 	ConnsMade  int          // connections the master accepted during this attempt
 	DumpsMade  int
+	DumpConn   *sim.ConnLog // the connection that carried the first dump request (nil if none)
 	InlineErrDone bool // Error() was called inline right after Stream returned
 	InlineErr     error
 	Done       chan struct{}
@@ -507,6 +508,8 @@ func (r *Running) Wait(maxWait time.Duration) *AttemptResult {
 			if r.res.Dump == nil && len(ds) > 0 {
 				d := ds[0]
 				r.res.Dump = &d
+				r.res.DumpConn = c
+				r.res.Conn = c // the attempt's connection is the one that asked for the dump
 			}
 		}
 	}
